@@ -100,13 +100,16 @@ def sim_inc(ctx):
 
 
 def sim_struct(ctx):
-    ctx.rule('SIM-COEF', 'a, b, c are the linear, quadratic and cubic spline coefficients '
-             '(PPoly c[2], c[1], c[0]); d, e the constant and linear specific-force coefficients '
-             'resolved in the start-of-interval body frame')
-    ctx.rule('SIM-DUP', 'increment type: first sample of both sensors duplicated; rate type: '
-             'first derivatives evaluated at the sample times')
+    ctx.rule('SIM-COEF', 'increment branch: the rotation-vector coefficients passed are the linear, '
+             'quadratic and cubic PPoly coefficients (c[2], c[1], c[0]) of the rotation spline; '
+             'the specific-force coefficients are (acceleration - gravitation) coefficient-wise, '
+             'rotated by the transposed start-of-interval attitude; dt = diff(time)')
+    ctx.rule('SIM-DUP', 'increment type: first sample of both sensors duplicated; tables pair '
+             'data blocks with their documented column groups on one time index')
+    from ..flow import Closure
     repo = ctx.repo
     f = repo.function('sim.generate_imu')
+    res = lambda n: f.module.resolve(n, f.local_names())
     inc = None
     for n in ast.walk(f.node):
         if isinstance(n, ast.If) and isinstance(n.test, ast.Compare) and \
@@ -114,71 +117,97 @@ def sim_struct(ctx):
                 n.test.comparators[0].value == 'increment':
             inc = n
     ctx.need(inc is not None, "generate_imu: 'increment' branch not found")
-    asg = {norm_text(st.targets[0]): st for st in inc.body if isinstance(st, ast.Assign)
-           and isinstance(st.targets[0], ast.Name)}
-    for nm, k in (('a', 2), ('b', 1), ('c', 0)):
-        st = asg.get(nm)
-        ok = st is not None and isinstance(st.value, ast.Subscript) and \
-            norm_text(st.value.value).endswith('.interpolator.c') and \
-            norm_text(st.value.slice) == str(k) and 'rot_' in norm_text(st.value.value)
-        ctx.ob('SIM-COEF', ok, None, '%s = rotation-spline coefficient c[%d]' % (nm, k), f=f,
-               node=(st or inc), key='coef-' + nm,
-               why='%s is `%s`; PPoly stores the coefficient of (t - t_i)^(3-k) in c[k], so the '
-                   '%s coefficient is c[%d]' % (nm, norm_text(st.value) if st else 'missing',
-                                                {2: 'linear', 1: 'quadratic', 0: 'cubic'}[k], k))
-    # call: _compute_increment_readings(dt, a, b, c, d, e)
     calls = [n for n in ast.walk(inc) if isinstance(n, ast.Call) and
-             norm_text(n.func) == '_compute_increment_readings']
-    ok = len(calls) == 1 and [norm_text(x) for x in calls[0].args] == ['dt', 'a', 'b', 'c', 'd', 'e']
-    ctx.ob('SIM-COEF', ok, None, 'coefficients passed in the order (dt, a, b, c, d, e)', f=f,
-           node=(calls[0] if calls else inc), key='call-order',
-           why='increment readings are computed from `%s`' % (
-               norm_text(calls[0]) if calls else 'nothing'))
-    # d, e: c[1] - g, c[0] - diff(g)/dt of the acceleration spline, then rotated by mat_ib^T
-    dd = [st for st in inc.body if isinstance(st, ast.Assign) and norm_text(st.targets[0]) == 'd']
-    ee = [st for st in inc.body if isinstance(st, ast.Assign) and norm_text(st.targets[0]) == 'e']
-    ok = len(dd) == 2 and len(ee) == 2 and '.c[1] - g_i[:-1]' in norm_text(dd[0].value) and \
-        '.c[0] - np.diff(g_i, axis=0) / dt' in norm_text(ee[0].value)
-    ctx.ob('SIM-COEF', ok, None, 'd = a0 - g, e = a1 - dg/dt of the inertial acceleration spline',
-           f=f, node=(dd[0] if dd else inc), key='d-e',
-           why='specific-force polynomial is not (acceleration - gravitation) coefficient-wise')
-    for st in (dd[1:] + ee[1:]):
-        v = st.value
-        ok = isinstance(v, ast.Call) and norm_text(v.func) == 'util.mv_prod' and \
-            norm_text(v.args[0]) == 'mat_ib[:-1]' and \
-            any(k.arg == 'at' and norm_text(k.value) == 'True' for k in v.keywords) or \
-            (isinstance(v, ast.Call) and len(v.args) == 3 and norm_text(v.args[2]) == 'True')
-        ctx.ob('SIM-COEF', ok, None, '%s resolved in the start-of-interval body frame'
-               % norm_text(st.targets[0]), f=f, node=st,
-               why='`%s`: specific-force coefficient is not rotated by mat_ib[:-1]^T (body frame '
-                   'at the start of each interval)' % norm_text(st)[:100])
-    dups = [st for st in inc.body if isinstance(st, ast.Assign) and isinstance(st.value, ast.Call)
-            and norm_text(st.value.func) == 'np.insert']
-    names = sorted(norm_text(st.targets[0]) for st in dups)
-    ok = names == ['accel', 'gyro'] and all(
-        [norm_text(a) for a in st.value.args[:3]] == [norm_text(st.targets[0]), '0',
-                                                       norm_text(st.targets[0]) + '[0]']
-        for st in dups)
-    ctx.ob('SIM-DUP', ok, None, 'first increment sample duplicated for gyro and accel', f=f,
-           node=(dups[0] if dups else inc), key='dup',
-           why='increment-type readings are not padded with a duplicate first sample for both '
-               'sensors (%s)' % names)
-    ok = 'dt' in asg and norm_text(asg['dt'].value) == 'np.diff(time)[:, None]'
-    ctx.ob('SIM-DUP', ok, None, 'interval lengths = diff(time)', f=f, node=asg.get('dt', inc),
-           key='dt', why='interval lengths are not diff(time)')
-    # returned tables
+             res(n.func) == 'pyins.sim._compute_increment_readings']
+    ctx.need(len(calls) == 1 and len(calls[0].args) == 6, 'call of _compute_increment_readings '
+             'not found in the increment branch')
+    call = calls[0]
+    st_call = [s_ for s_ in inc.body if any(x is call for x in ast.walk(s_))][0]
+    # role variables
+    rotspl = grav = accspl = matib = None
+    for n in ast.walk(f.node):
+        if isinstance(n, ast.Assign) and isinstance(n.targets[0], ast.Name) and \
+                isinstance(n.value, ast.Call):
+            q = res(n.value.func)
+            if q == 'scipy.spatial.transform.RotationSpline':
+                rotspl = n.targets[0].id
+                a1 = n.value.args[1] if len(n.value.args) > 1 else None
+                if isinstance(a1, ast.Call) and a1.args and isinstance(a1.args[0], ast.Name):
+                    matib = a1.args[0].id
+            elif q == 'pyins.earth.gravitation_ecef':
+                grav = n.targets[0].id
+    # the inertial velocity spline: the callable evaluated with order 1 in the rate branch
+    for n in ast.walk(f.node):
+        if isinstance(n, ast.Call) and isinstance(n.func, ast.Name) and len(n.args) == 2 and \
+                norm_text(n.args[1]) == '1' and n.func.id != rotspl:
+            accspl = n.func.id
+    ctx.need(all([rotspl, grav, accspl, matib]), 'generate_imu: spline / gravitation / attitude '
+             'variables not identified (%s)' % [rotspl, grav, accspl, matib])
+    clo = Closure(f, stop={rotspl, grav, accspl, matib, f.params[0]})
+    texts = [clo.text(a, st_call, depth=4) for a in call.args]
+    tname = f.params[0]
+    ok = texts[0] in ('np.diff(%s)[:, None]' % tname, 'np.diff(%s).reshape(-1, 1)' % tname)
+    ctx.ob('SIM-COEF', ok, None, 'interval lengths = diff(time) as a column', f=f, node=call,
+           key='dt', why='interval lengths passed are `%s`' % texts[0])
+    for i, k, nm in ((1, 2, 'linear'), (2, 1, 'quadratic'), (3, 0, 'cubic')):
+        ok = texts[i] == '%s.interpolator.c[%d]' % (rotspl, k)
+        ctx.ob('SIM-COEF', ok, None, 'argument %d = %s rotation-vector coefficient c[%d]'
+               % (i + 1, nm, k), f=f, node=call, key='coef-%d' % i,
+               why='argument %d of the increment formula is `%s`; PPoly stores the coefficient of '
+                   '(t - t_i)^(3-k) in c[k], so the %s coefficient is %s.interpolator.c[%d]'
+                   % (i + 1, texts[i], nm, rotspl, k))
+    want_d = 'util.mv_prod(%s[:-1], %s.derivative().c[1] - %s[:-1], at=True)' % (matib, accspl, grav)
+    want_e = ('util.mv_prod(%s[:-1], %s.derivative().c[0] - np.diff(%s, axis=0) / %s, at=True)'
+              % (matib, accspl, grav, texts[0]))
+    for i, want, nm in ((4, want_d, 'constant'), (5, want_e, 'linear')):
+        got = texts[i].replace(', True)', ', at=True)')
+        ctx.ob('SIM-COEF', got == want, None, '%s specific-force coefficient = (acceleration - '
+               'gravitation) rotated by the transposed start-of-interval attitude' % nm, f=f,
+               node=call, key='force-%d' % i,
+               why='%s specific-force coefficient is `%s`, expected `%s`' % (nm, got, want))
+    # outputs of the call and duplication of the first sample
+    tg = st_call.targets[0] if isinstance(st_call, ast.Assign) else None
+    outs = [norm_text(e) for e in tg.elts] if isinstance(tg, ast.Tuple) else []
+    dups = {}
+    for st in inc.body:
+        if isinstance(st, ast.Assign) and isinstance(st.value, ast.Call) and \
+                res(st.value.func) == 'numpy.insert' and isinstance(st.targets[0], ast.Name):
+            a_ = [norm_text(x) for x in st.value.args[:3]]
+            t = st.targets[0].id
+            dups[t] = a_ == [t, '0', t + '[0]'] and any(
+                k.arg == 'axis' and norm_text(k.value) == '0' for k in st.value.keywords)
+    ok = len(outs) == 2 and all(dups.get(o) for o in outs)
+    ctx.ob('SIM-DUP', ok, None, 'first increment sample duplicated for both outputs %s' % outs, f=f,
+           node=st_call, key='dup',
+           why='increment-type readings %s are not both padded with a duplicate first sample '
+               '(%s)' % (outs, dups))
+    # returned tables: (trajectory, imu)
     ret = [n for n in ast.walk(f.node) if isinstance(n, ast.Return)]
     ok = False
+    why = 'returned tables not recognised'
     if ret and isinstance(ret[-1].value, ast.Tuple) and len(ret[-1].value.elts) == 2:
         t0, t1 = ret[-1].value.elts
-        ok = all('index=index' in norm_text(t) for t in (t0, t1)) and \
-            'columns=TRAJECTORY_COLS' in norm_text(t0) and \
-            'np.hstack([lla, velocity_n, rph])' in norm_text(t0) and \
-            'columns=GYRO_COLS + ACCEL_COLS' in norm_text(t1) and \
-            'np.hstack((gyro, accel))' in norm_text(t1)
-    ctx.ob('SIM-DUP', ok, None, 'trajectory = [lla, velocity_n, rph], imu = [gyro, accel] on the '
-           'common time index', f=f, node=(ret[-1] if ret else f.node), key='tables',
-           why='returned tables do not pair data blocks and column groups as documented')
+        def parts(t):
+            if not (isinstance(t, ast.Call) and res(t.func) == 'pandas.DataFrame'):
+                return None
+            data = t.args[0] if t.args else [k.value for k in t.keywords if k.arg == 'data'][0]
+            cols = [k.value for k in t.keywords if k.arg == 'columns']
+            idx = [k.value for k in t.keywords if k.arg == 'index']
+            blocks = None
+            if isinstance(data, ast.Call) and res(data.func) == 'numpy.hstack' and \
+                    isinstance(data.args[0], (ast.List, ast.Tuple)):
+                blocks = [norm_text(e) for e in data.args[0].elts]
+            return blocks, (norm_text(cols[0]) if cols else None), \
+                (norm_text(idx[0]) if idx else None)
+        p0, p1 = parts(t0), parts(t1)
+        if p0 and p1:
+            gy, ac = (outs + [None, None])[:2]
+            ok = p0[0] == [f.params[1], f.params[3], f.params[2]] and \
+                p0[1] == 'TRAJECTORY_COLS' and p1[1] == 'GYRO_COLS + ACCEL_COLS' and \
+                p1[0] == [gy, ac] and p0[2] == p1[2] and p0[2] is not None
+            why = 'trajectory table %s, imu table %s' % (p0, p1)
+    ctx.ob('SIM-DUP', ok, None, 'trajectory = [lla, velocity_n, rph], imu = [gyro, accel] on one '
+           'time index', f=f, node=(ret[-1] if ret else f.node), key='tables', why=why)
 
 
 # ----------------------------------------------------------------------- SIM-KIN
